@@ -190,8 +190,16 @@ class Cons(fm.TimeComponent):
 
 
 def run_once(spec, limit, tag):
-    loc = os.path.abspath(f"spill-{tag}")
+    # the configured location is a directory name like any other: blanks and characters that mean something to
+    # glob patterns or shells must not matter
+    loc = os.path.abspath({None: "spill-{t}", 1: "spill[{t}]", 2: "sp ill-{t}*", 3: "sp?ll-{t}"}[spec.get("loc_name")].format(t=tag))
     os.makedirs(loc, exist_ok=True)
+    other = None
+    if spec.get("shared_location") and limit is not None:
+        # an ensemble member sharing the location: constructed first, run and finalized before this composition runs
+        op, oc = Prod(1, "plain", spec["units"], None), Cons(1, fm.Mask.FLEX)
+        other = fm.Composition([op, oc], print_log=False, log_level=logging.CRITICAL + 10, slot_memory_location=loc, slot_memory_limit=limit)
+        op.outputs["out"] >> oc.inputs["in"]
     prod = Prod(spec["pstep"], spec["payload"], spec["units"], None)
     cmask = MASK if spec["payload"] == "masked_fixed" else fm.Mask.FLEX
     cons = Cons(spec["cstep"], cmask)
@@ -227,15 +235,17 @@ def run_once(spec, limit, tag):
     err = None
     mid_listing = []
     try:
+        if other is not None:
+            other.run(start_time=T0, end_time=T0 + H(3))
         comp.connect(T0)
-        mid_listing = os.listdir(loc)
+        mid_listing = os.listdir(loc) if os.path.isdir(loc) else []
         comp.run(end_time=T0 + H(spec["end"]))
     except Exception as e:  # pylint: disable=broad-except
         err = f"{type(e).__name__}: {e}"
     finally:
         LEDGER["on"] = False
     created, removed = list(LEDGER["created"]), list(LEDGER["removed"])
-    left = sorted(os.listdir(loc))
+    left = sorted(os.listdir(loc)) if os.path.isdir(loc) else []  # (an implementation may remove its empty spill directory)
     new_cwd = sorted(set(os.listdir(".")) - before_cwd - {os.path.basename(loc)})
     # clean up whatever is left so later cases start clean
     for f in left:
@@ -286,7 +296,7 @@ class C10(Property):
                     # a producer publishing its in-place updated state array (refused, then a copy is published): only where the
                     # consumer never reads an older entry again (equal steps, exact-time slots), else the reuse itself corrupts history
                     reuse_state=(payload == "plain" and pstep == cstep and slots[0] in ("output", "next", "prev", "linear", "step0", "step5") and len(slots) == 1),
-                    static_slot=rnd.random() < 0.15)
+                    static_slot=rnd.random() < 0.15, loc_name=rnd.choice([None, None, None, 1, 2, 3]), shared_location=rnd.random() < 0.1)
 
     def run(self, spec):
         install_hook()
@@ -340,13 +350,18 @@ class C10(Property):
             out.count("static_slot_spills")
         if spec["per_slot_limit"] and spilled:
             out.count("per_slot_limit_spills")
+        if spec.get("loc_name") and spilled:
+            out.count("spills_below_locations_with_special_characters")
+        if spec.get("shared_location") and spilled:
+            out.count("spills_into_a_location_shared_with_a_finished_composition")
         if spec["payload"].startswith("masked") and spilled:
             out.count("masked_spills")
         return out
 
     def coverage_gaps(self, counters, tier):
         need = ["pairs_run", "cases_with_spill", "received_items_compared", "per_slot_limit_spills", "masked_spills",
-                "refused_then_retried_publications_with_spill", "static_slot_spills"] + ["spill_in_" + s for s in SLOTS]
+                "refused_then_retried_publications_with_spill", "static_slot_spills", "spills_below_locations_with_special_characters",
+                "spills_into_a_location_shared_with_a_finished_composition"] + ["spill_in_" + s for s in SLOTS]
         gaps = [f"{k} never observed" for k in need if not counters.get(k)]
         if counters.get("reference_failed", 0) > 0.02 * max(1, counters.get("pairs_run", 0)):
             gaps.append(f"{counters.get('reference_failed')} reference runs failed")
